@@ -52,8 +52,12 @@ def d_struct(members):
     return {"k": "struct", "m": [{"n": cps(n) if n else [], "t": t} for n, t in members]}
 
 
-def d_fixedstr(cap, lw=4):
-    return {"k": "fixedstr", "cap": cap, "lw": lw}
+def d_fixedstr(cap, lw=4, capn=None):
+    """cap: size of the character area (with padding); capn: number of characters it can hold (a Logix string tag)"""
+    d = {"k": "fixedstr", "cap": cap, "lw": lw}
+    if capn is not None:
+        d["capn"] = capn
+    return d
 
 
 def d_structtag(size, members, bits, priv):
@@ -95,7 +99,7 @@ def describe(t):
     if k == "struct":
         return "Struct(%s)" % ", ".join("%s:%s" % (name_of(m["n"]) or "-", describe(m["t"])) for m in t["m"])
     if k == "fixedstr":
-        return "FixedSizeString(%d)" % t["cap"]
+        return "FixedSizeString(%d%s)" % (t["cap"], ", capacity_=%d" % t["capn"] if "capn" in t else "")
     if k == "structtag":
         return "StructTag(size=%d, %s | bits %s)" % (t["size"], ", ".join(
             "%s:%s@%d" % (name_of(m["n"]), describe(m["t"]), m["off"]) for m in t["m"]),
@@ -142,6 +146,8 @@ def build(t):
     if k == "struct":
         return cip.Struct(*[member(m["t"], name_of(m["n"])) for m in t["m"]])
     if k == "fixedstr":
+        if "capn" in t:
+            return ct.FixedSizeString(t["cap"], cip.UDINT if t["lw"] == 4 else cip.UINT, capacity_=t["capn"])
         return ct.FixedSizeString(t["cap"], cip.UDINT if t["lw"] == 4 else cip.UINT)
     if k == "structtag":
         return ct.StructTag(*[(member(m["t"], name_of(m["n"])), m["off"]) for m in t["m"]],
@@ -256,7 +262,8 @@ def gen_value(t, rnd, size=4):
     if k == "struct":
         return {name_of(m["n"]): gen_value(m["t"], rnd, size) for m in t["m"]}
     if k == "fixedstr":
-        return text(rnd, rnd.choice([0, 1, t["cap"], rnd.randint(0, t["cap"])]), "latin1")
+        c = t.get("capn", t["cap"])
+        return text(rnd, rnd.choice([0, 1, c, rnd.randint(0, c)]), "latin1")
     if k == "structtag":
         v = {name_of(m["n"]): gen_value(m["t"], rnd, size) for m in t["m"] if m["n"] not in t["priv"]}
         for b in t["bits"]:
@@ -317,6 +324,8 @@ def bad_values(t, rnd):
             out += [("too-long", "x" * 65536)]
         if k == "fixedstr":
             out += [("over-capacity", "z" * (t["cap"] + 1))]
+            if "capn" in t:
+                out += [("over-capacity", "y" * n) for n in sorted({t["capn"] + 1, t["cap"], t["cap"] + 3})]
     elif k == "stringn":
         out += [("bad-char-size", ("abc", 3)), ("bad-char-size", ("abc", 0)), ("int-for-str", (5, 1)),
                 ("unencodable-char", ("a\ud800", 2))]
@@ -373,7 +382,8 @@ def elementary_alphabet():
     ts += [d_bool(), d_real(4), d_real(8)]
     ts += [d_str(1, 1), d_str(2, 1), d_str(4, 1), d_str(2, 2), d_stringn()]
     ts += [d_bits(1), d_bits(2), d_bits(4), d_bits(8), d_bits(2, "ENGUNIT")]
-    ts += [d_dt(), d_ip(), d_nbytes(3), d_nbytes(-1), d_fixedstr(5), d_fixedstr(82)]
+    ts += [d_dt(), d_ip(), d_nbytes(3), d_nbytes(-1), d_fixedstr(5), d_fixedstr(82), d_fixedstr(84, 4, capn=82), d_fixedstr(8, 4, capn=5),
+           d_fixedstr(4, 4, capn=1)]
     return ts
 
 
